@@ -7,7 +7,10 @@ Conventions that make "every tokenizer start state" meaningful (they do not chan
 algorithm on configurations the algorithm itself can reach):
   * the current tag token initially is a start tag with an empty name and no attributes,
   * the current attribute initially has an empty name and value, and an attribute whose
-    name is empty when it is finished is discarded,
+    name is empty when it is finished is discarded; the value collected under the empty name
+    stays in the value buffer until an attribute with a name takes it (this only ever happens
+    when the run STARTS in an attribute state without a name - TokenizerOpts::initial_state is
+    documented as test-only - and mirrors what the implementation does there),
   * the current comment is empty, the current DOCTYPE has a missing name and ids,
   * the temporary buffer is empty.
 Output tokens use the snapshot form of mirsym.tok (characters are emitted one by one and
@@ -186,7 +189,8 @@ class Ref:
 
     def new_tag(self, kind):
         self.tag = {"kind": kind, "name": [], "self": False, "attrs": [], "dup": False}
-        self.attr = [[], []]
+        # (start-state convention, see finish_attr: a value collected under the empty name stays pending)
+        self.attr = [[], self.attr[1]]
         self.attr_open = False
 
     def start_attr(self):
